@@ -72,6 +72,10 @@ def job_seq(item):
         c2 = ex.call('compile', [Ptr(Cell(rstr(e2)))])
         # the outcome of compile() for e2 is the outcome of parsing e2 itself (parse is the stateless reference), whatever was compiled before
         p2 = ex.call('parse', [Ptr(Cell(rstr(e2)))])
+        # ... and parse itself must still be the reference pipeline's answer for the text (a cache below the parser would corrupt both alike)
+        from . import c01 as C01
+        rv = C01.tree_vs_reference(prog, e2, p2)
+        if rv is not None: return 'after other compilations the tree for ' + repr(e2) + ' is not the parse of its argument: ' + rv
         if c2.variant != p2.variant: return f'compile() after other compilations is {c2.variant} where the stateless parse is {p2.variant}: not the parse of its argument'
         if c2.variant == 'Err':
             if XP.reason_kind(c2.fields[0].v) != XP.reason_kind(p2.fields[0].v) or XP.err_field(c2.fields[0].v, 'offset').concrete() != XP.err_field(p2.fields[0].v, 'offset').concrete():
